@@ -62,6 +62,13 @@ def _schema(T, with_cons=True):
         base = _SHARED.get(key)
         if base is None:
             base = _SHARED[key] = _schema(dict(T, tags=[], share=None), with_cons)
+        if T.get('share') == 'clone':
+            # the tagged variant spelt as clone(tagSet=...) of the shared base object
+            obj = base
+            for mode, cls, num in T.get('tags', ()):
+                t = tag.Tag(TAG_CLASS[cls], tag.tagFormatSimple if mode == 'I' else tag.tagFormatConstructed, num)
+                obj = obj.clone(tagSet=obj.tagSet.tagImplicitly(t) if mode == 'I' else obj.tagSet.tagExplicitly(t))
+            return obj
         return apply_tags(base, T.get('tags', ()))
     return _schema1(T, with_cons)
 
@@ -71,6 +78,8 @@ def _schema1(T, with_cons=True):
     if k in SIMPLE_CLASS:
         if k in ('INTEGER', 'ENUMERATED') and T.get('named'):
             obj = SIMPLE_CLASS[k](namedValues=namedval.NamedValues(*[(n, v) for n, v in T['named']]))
+        elif T.get('alias') and k in ('TeletexString', 'VisibleString'):
+            obj = (char.T61String if k == 'TeletexString' else char.ISO646String)()       # the library's alias classes
         else:
             obj = SIMPLE_CLASS[k]()
     elif k in ir.RECORD_KINDS:
